@@ -80,6 +80,18 @@ func (r *resendContext) clear() {
 	r.messages.m = nil
 }
 
+// wipe forgets what was remembered for resending, zeroing the texts
+func (r *resendContext) wipe() {
+	r.messages.Lock()
+	defer r.messages.Unlock()
+
+	for i := range r.messages.m {
+		wipeBytes(r.messages.m[i].m)
+	}
+	r.messages.m = nil
+	r.mayRetransmit = noRetransmit
+}
+
 func (r *resendContext) shouldRetransmit() bool {
 	return len(r.messages.m) > 0 && r.mayRetransmit != noRetransmit
 }
